@@ -253,7 +253,7 @@ func (r *RectClip64) executeInternal(path Path64) {
 	i := 0
 	for i <= highI {
 		prev = loc
-		prevCrossLoc := Inside
+		prevCrossLoc := crossingLoc
 		r.getNextLocation(path, &loc, &i, highI)
 		if i > highI {
 			break
